@@ -157,7 +157,7 @@ def scenario(cfg, val, fresh_only=False):
     for op, arg in hist:
         if op == "new":
             o = dict(osets[arg])
-            o["nodeSpacing"] = sc.s
+            o["nodeSpacing"] = sc.s if arg == 0 else 0  # the auxiliary configuration differs in EVERY option, spacing included
             f = Force(o)
         elif op == "nodes":
             sc.live = list(sc.nodes[:-1]) if arg == "drop-last" else list(sc.nodes)
